@@ -22,9 +22,11 @@ LEVEL = {
  "C13": ("model_checking", "PuanPrio enumerates priority arrays and TLC checks that the shadow algorithm satisfies the dominance relation, that prio is a dense ranking of levels and that shadow weights rank all 0/1 selections lexicographically; recorded ndint_compress results (7 methods; 2-D on both axes, flattened, batched 3-D) are validated against the relation (shadow: any weights with the stated features are accepted) or the exact function."),
  "C14": ("model_checking", "for configurators enumerated by the builder machine (defaulted/plain Any/Xor rules) TLC checks on the specification that the shadow-compressed [defaults; user priorities] objective ranks all feasible points lexicographically; the objective vectors and polyhedron a capturing solver RECEIVED from select() are validated: all-pairs ranking on the recorded polyhedron, and equality of leaf-projected optimal sets with the specified configurator (structure, default priorities and objective computed by the spec from the recipe)."),
  "C15": ("model_checking", "solve()/select() are driven with harness solvers (capture, brute-force exact, None, mixed, raising); TLC validates what the solver received (own polyhedron, weight at each column = weight given for that column's id / lexicographic ranking) and what was reported back (id alignment, generated-id and leaf filters, None -> {}, InfeasibleError) and re-checks the exact solver's answers for optimality and model truth."),
+ "C09": ("model_checking", "the API is a TLA+ machine over a store of live objects (PuanAPI); TLC proves Purity/Determinism for the intended design and finds the purity counterexample itself when the named deviation (known finding D2) is enabled. Every enumerated length-2 call history (any op, any handle, dictionaries naming sub-proposition ids) is executed on live objects in long-lived processes; TLC validates per step that no live object's projection changed (except as explained by the listed known deviation, decided by the spec operator LeakT), that hook events are explained, and that every result equals the result of the same call on a freshly built identical object in a pristine process."),
+ "C18": ("model_checking", "Add is an action of the API machine (AddIsBuild, IdKept checked by TLC); all add-sequences of length 3 over a rule catalogue are executed: each step is compared by TLC with direct construction (structure, default priorities, polyhedron, solutions), id kept, original unchanged (also later, as a ghost handle), refusal iff the id clashes with a top-level child."),
 }
 NOTE = "trusted: TLC/SANY + CommunityModules Json; harness/proj.py (projection of public attributes) and harness/tlaval.py; exhaustive only inside the universes listed in the evidence (spec_runs); random batch is seeded by VERIF_SEED"
-TECH = "explicit TLA+ spec (PuanModel/PuanCtor/PuanBuild/PuanPoly/PuanBridge/PuanPrio) model-checked by TLC + TLC trace validation (PuanTrace) of recorded implementation events"
+TECH = "explicit TLA+ spec (PuanModel/PuanCtor/PuanBuild/PuanPoly/PuanBridge/PuanPrio/PuanAPI) model-checked by TLC + TLC trace validation (PuanTrace) of recorded implementation events"
 ALL = ["C%02d" % i for i in range(1, 21)]
 checks, na = [], []
 for p in ALL:
@@ -35,7 +37,7 @@ for p in ALL:
                        "engine": "tlc+trace", "level_claimed": {"category": cat, "text": text, "design_ref": f"DESIGN.md section 5 ({p})"},
                        "level_note": NOTE, "technique": TECH})
     else:
-        na.append({"property_id": p, "reason": "check not built yet in this round (planned: same TLA+ specification + trace validation pipeline, see DESIGN.md section 5)"})
+        na.append({"property_id": p, "reason": "no check built"})
 m = {"version": 1,
      "setup_cmd": "cd /verif && for f in spec/*.tla; do (cd spec && tla-sany $(basename $f) >/dev/null) || exit 1; done; mkdir -p evidence replays",
      "hooks": {"guard": "PUAN_VERIF", "enable": "environment variable PUAN_VERIF=1 set before `import puan` (the check script re-execs itself with it, PYTHONPATH=/repo so the working tree is imported)",
